@@ -408,6 +408,7 @@ type stepObs struct {
 	S0, S1        int64     // journal sequence before the call / after it returned
 	Err           error
 	TimedOut      bool
+	ProbeAt       time.Time // when the probe before the step was started
 	Meta          string // metadata step: canonical form of the result
 	MetaOK        bool
 	CoordTruth    map[string]int32 // coordinator of the keys used by the step, at step start
@@ -873,6 +874,7 @@ func execute(c routeCase) *result {
 	neverAfter := 10*ttl + 2*time.Second
 	for _, s := range c.Steps {
 		var o stepObs
+		o.ProbeAt = time.Now()
 		o.Probe = w.probe()
 		o.ProbeSeqAfter = cl.Seq()
 		switch {
@@ -1111,14 +1113,22 @@ func run(tb ev.TB, c routeCase) *outcome {
 		}
 		return k
 	}
-	for _, o := range res.obs {
-		if o.TimedOut {
-			ev.Inconclusive("call_timed_out")
-			return nil
+	outageBefore := func(i int) bool {
+		for k := 0; k < i && k < len(c.Steps); k++ {
+			if c.Steps[k].Op == "outage" {
+				return true
+			}
 		}
+		return false
+	}
+	timedOut := false
+	for _, o := range res.obs {
+		timedOut = timedOut || o.TimedOut
 	}
 
 	// ---- probes: the cache always holds the content of one refresh, and moves forward only
+	// (judged before a timed-out call makes the case inconclusive: a transport that never takes in the brokers' answers
+	// makes every call time out)
 	L := 0
 	usable := true
 	for i := range res.obs {
@@ -1132,6 +1142,18 @@ func run(tb ev.TB, c routeCase) *outcome {
 				if e.Seq <= o.ProbeSeqAfter && e.Outcome == "answered" {
 					answered++
 				}
+			}
+			// ... or when one was answered completely more than a second before the probe (which itself waits for seconds) began
+			longAgo := false
+			for _, e := range d {
+				if e.Outcome == "answered" && !e.AnsweredAt.IsZero() && e.AnsweredAt.Before(o.ProbeAt.Add(-time.Second)) {
+					longAgo = true
+				}
+			}
+			if longAgo && answered < 3 && ev.MachineLate(30*time.Second) < 200*time.Millisecond && !outageBefore(i) {
+				fail("c12/cache-error-after-refresh", "before step %d (%s) a metadata request served from the transport's cache failed although a metadata refresh had been answered completely by a broker more than a second earlier%s",
+					i, c.Steps[i].Op, describeWindow(d, snaps, 0, len(snaps)-1))
+				return nil
 			}
 			if answered >= 3 {
 				fail("c12/cache-error-after-refresh", "before step %d (%s) a metadata request served from the transport's cache still failed although %d metadata refreshes had been answered by the brokers%s",
@@ -1160,6 +1182,10 @@ func run(tb ev.TB, c routeCase) *outcome {
 		}
 		L = found
 		o.L = found
+	}
+	if timedOut {
+		ev.Inconclusive("call_timed_out")
+		return nil
 	}
 	if !usable {
 		ev.Inconclusive("cache_probe_failed")
@@ -1238,14 +1264,6 @@ func run(tb ev.TB, c routeCase) *outcome {
 		out.label("metadata_filter_checked")
 	}
 
-	outageBefore := func(i int) bool {
-		for k := 0; k < i && k < len(c.Steps); k++ {
-			if c.Steps[k].Op == "outage" {
-				return true
-			}
-		}
-		return false
-	}
 	// ---- routing
 	stepOf := func(seq int64) int {
 		for i := range res.obs {
